@@ -201,7 +201,11 @@ func (l *lane) runSet2(set []*Exchange, o execOpts, count bool) (bool, []bool) {
 		go func(idx int, e *Exchange) {
 			defer wg.Done()
 			defer func() { <-mySem }()
+			t0 := time.Now()
 			cl, cls := runExchange(e, w.ports, o)
+			if os.Getenv("C35_TRACE") == "2" && time.Since(t0) > 4*time.Second {
+				fmt.Printf("TRACE-SLOW %.1fs %s -> %s\n", time.Since(t0).Seconds(), e, cl)
+			}
 			for attempt := 0; attempt < 3 && strings.Contains(cl, "dial-error") && w.alive(); attempt++ {
 				// the connection could not even be established (overload): deliver again
 				time.Sleep(time.Duration(100*(attempt+1)) * time.Millisecond)
@@ -230,6 +234,17 @@ func (l *lane) runSet2(set []*Exchange, o execOpts, count bool) (bool, []bool) {
 	}
 	if !w.alive() {
 		return false, cleared()
+	}
+	if os.Getenv("C35_TRACE") == "3" && w.cmd != nil && w.cmd.Process != nil {
+		if b, err := os.ReadFile(fmt.Sprintf("/proc/%d/status", w.cmd.Process.Pid)); err == nil {
+			var keep []string
+			for _, ln := range strings.Split(string(b), "\n") {
+				if strings.HasPrefix(ln, "VmPeak") || strings.HasPrefix(ln, "VmHWM") || strings.HasPrefix(ln, "VmSize") || strings.HasPrefix(ln, "VmRSS") || strings.HasPrefix(ln, "Threads") {
+					keep = append(keep, strings.Join(strings.Fields(ln), ""))
+				}
+			}
+			fmt.Printf("TRACE-MEM %s after %d exchanges from %s: %s\n", w.kind, len(set), set[0], strings.Join(keep, " "))
+		}
 	}
 	rtsp, api := w.probe(25 * time.Second)
 	if !w.alive() {
@@ -404,7 +419,11 @@ func (l *lane) runChunk(chunk []*Exchange, kind workerKind) bool {
 		keep = append(keep, e)
 	}
 	l.d.mu.Unlock()
+	t0 := time.Now()
 	l.process(keep, false)
+	if os.Getenv("C35_TRACE") != "" && len(keep) > 0 {
+		fmt.Printf("TRACE lane %d %s: %d exchanges from %s in %.1fs (at %.1fs)\n", l.id, kind, len(keep), keep[0], time.Since(t0).Seconds(), time.Since(startTime).Seconds())
+	}
 	return true
 }
 
